@@ -326,8 +326,8 @@ impl Check for C08 {
     }
     fn cases(&self, tier: Tier) -> u64 {
         match tier {
-            Tier::Quick => 120_000,
-            Tier::Thorough => 5_000_000,
+            Tier::Quick => 1_200_000,
+            Tier::Thorough => 50_000_000,
         }
     }
     fn one_case(&self, data: &[u8], ctx: &mut Ctx) -> Outcome {
